@@ -7,6 +7,8 @@ mismatch, transform raises, merge raises, missing api_data key, empty api_data o
 x {run, stream_run}.  Observed: the API call raises, the exception carries the original message, within a wall-clock
 bound, and nothing is returned.  T2: failing SYNC traces are replayed through the model (chk_sync with the failing step
 as oracle).
+Protocol level (coq/Props/Worker.v over Model/Worker.v): real THREADING / MULTIPROCESSING runs with a fault at every crash point
+of the worker / orchestrator message protocol are observed, canonicalised and replayed as traces (harness/worker_proto.py).
 """
 from __future__ import annotations
 
@@ -22,6 +24,7 @@ from harness import daggen
 from harness.universe import (Universe, export_plan, kf_tfs_partial_requirement, kf_framework_roundtrip, kf_tfs_missing)
 from harness.orch import GateListener, run_observed, cq_plan, install, REC, uuid_to_sid
 from harness.c01 import gen_specs, cq_status
+from harness import worker_proto
 
 LEVEL = "proof"
 logging.disable(logging.CRITICAL)
@@ -113,8 +116,12 @@ def run(rep: vlib.Reporter, tier: str, seed: int) -> None:
         "fault injection: generated calculate_feature/validate_* bodies, harness-side wrappers of TransformFrameworkStep.transform "
         "and JoinStep._merge_data"]
     big = tier == "thorough"
-    specs, gstats = gen_specs(rng, 120 if big else 16)
     found = False
+    # ---- protocol level: histories of real THREADING / MULTIPROCESSING runs must be traces of Model/Worker.v; every disagreement
+    # (model / judge / observe) is a violation whose replay object is the case (first, so that its findings are among those printed)
+    if worker_proto.report(rep, "C08", tier, seed):
+        found = True
+    specs, gstats = gen_specs(rng, 120 if big else 16)
     cases: List[Dict[str, Any]] = []
     cf_decisions: List[Any] = []
     n_mp = 0
@@ -237,6 +244,8 @@ def run(rep: vlib.Reporter, tier: str, seed: int) -> None:
 
 def replay(path: str) -> int:
     r = json.load(open(path))["replay"]
+    if r.get("kind") == "worker_proto":
+        return worker_proto.replay_main(r, "C08")
     res = run_fault(r["spec"], r["fault"], r["mode"], r["stream"])
     print(json.dumps({k: v for k, v in res.items() if k != "plan"}, indent=1, default=str))
     return 0
